@@ -1,6 +1,6 @@
 """C15 - spec text can never alter the structure of generated code.
 
-TextSink.tla (TLC) enumerates every payload of length <= k over a 10-class hostile alphabet together with the
+TextSink.tla (TLC) enumerates every payload of length <= k over a 11-class hostile alphabet together with the
 lexical-context transitions it exercises; the harness picks a transition-covering payload set (quick) or all payloads
 (thorough), places each payload in each text-bearing position of a document, generates side by side with a benign
 baseline of the same length and compares: every file parses, the AST skeleton is unchanged, meaningful literals
@@ -17,7 +17,10 @@ from .features import jresp, obj, ref
 
 LEVEL = "exploration"
 
-CHARS = {"plain": "x", "dq": '"', "sq": "'", "bs": "\\", "lf": "\n", "cr": "\r", "hash": "#", "lbrace": "{", "rbrace": "}", "nonascii": "é"}
+CHARS = {"plain": "x", "dq": '"', "sq": "'", "bs": "\\", "lf": "\n", "cr": "\r", "hash": "#", "lbrace": "{", "rbrace": "}", "nonascii": "é", "usep": "\u2028",
+         # further members of the usep class (each placed alone and inside plain text)
+         "usep_ps": "\u2029", "usep_nel": "\x85", "usep_vt": "\x0b", "usep_ff": "\x0c", "usep_fs": "\x1c", "usep_rs": "\x1e"}
+USEP_MORE = ["usep_ps", "usep_nel", "usep_vt", "usep_ff", "usep_fs", "usep_rs"]
 
 
 def base_doc() -> dict:
@@ -128,6 +131,12 @@ POSITIONS: dict[str, tuple[Callable[[dict, str], None], bool]] = {
     "property_name": (_prop_name, True),
     "enum_value": (_enum_value, True),
     "string_default": (_set(S + ["Thing", "properties", "nick"], "default"), False),
+    # a default whose JSON type is not the property's type is still spec TEXT: it must stay data wherever it is rendered
+    "int_default_text": (lambda d, t: d["components"]["schemas"]["Thing"]["properties"]["size"].__setitem__("default", t), False),
+    "number_default_text": (lambda d, t: d["components"]["schemas"]["Thing"]["properties"].__setitem__("ratio", {"type": "number", "default": t}), False),
+    "bool_default_text": (lambda d, t: d["components"]["schemas"]["Thing"]["properties"].__setitem__("flag", {"type": "boolean", "default": t}), False),
+    "param_default": (lambda d, t: _get(d)["parameters"][1]["schema"].__setitem__("default", t), False),
+    "example_text": (lambda d, t: d["components"]["schemas"]["Thing"]["properties"]["name"].__setitem__("example", t), False),
     "query_param_name": (_query_name, True),
     "header_param_name": (_header_name, True),
     "param_description": (lambda d, t: _get(d)["parameters"][1].__setitem__("description", t), False),
@@ -208,6 +217,8 @@ def run(chk: Check) -> None:
             inner.append(["plain"] + list(pl) + ["plain"])
     extra += inner
     extra += [[k] for k in CODELIKE]
+    for u in USEP_MORE:
+        extra += [[u], ["plain", u, "plain"]]
     have = {json.dumps(p["payload"]) for p in chosen}
     for e in extra:
         if json.dumps(e) not in have:
@@ -217,7 +228,7 @@ def run(chk: Check) -> None:
     chk.cov["transitions_covered"] = len({tuple(t) for p in ps for t in p["trans"]})
     chk.cov["rule"] = (
         f"{len(POSITIONS)} text-bearing positions x {'all payloads of length <=3' if thorough else 'a transition-covering payload set (all single characters + greedy cover + classic endings)'} over the "
-        "10-class hostile alphabet of TextSink.tla; each hostile document is generated next to a benign baseline of the same length; non-trivial = payload with at least one non-plain character"
+        "11-class hostile alphabet of TextSink.tla; each hostile document is generated next to a benign baseline of the same length; non-trivial = payload with at least one non-plain character"
     )
     chk.assumptions += ["skeleton = AST with identifiers, constants and docstring text erased", "a meaningful literal is found as a string constant of some non-core emitted file equal to the original text", "documents the generator rejects visibly are not judged"]
     root = chk.scratch.sub("text")
@@ -268,7 +279,7 @@ def run(chk: Check) -> None:
 
     obs = {jid: observe(jid) for jid, m in meta.items() if not m["baseline"]}
     # culprit attribution: the hostile class of the payload with the highest failure rate at this position in this run
-    ORDER = ["dq", "sq", "bs", "lf", "cr", "lbrace", "rbrace", "hash", "nonascii"] + sorted(CODELIKE)
+    ORDER = ["dq", "sq", "bs", "lf", "cr", "lbrace", "rbrace", "hash", "nonascii", "usep"] + USEP_MORE + sorted(CODELIKE)
     stats: dict[tuple, list] = {}
     for jid, o in obs.items():
         m = meta[jid]
